@@ -65,6 +65,9 @@ def fix_wikipedia_siteinfo(siteinfo):
 
 
 
+_edge_junk_rex = re.compile(r'^[\s\u200e\u200f]+|[\s\u200e\u200f]+$')
+
+
 class NsHandler:
     def __init__(self, siteinfo):
         if siteinfo is None:
@@ -126,7 +129,11 @@ class NsHandler:
     def splitname(self, title, defaultns=0):
         if not isinstance(title, str):
             title = title.decode('utf-8') if isinstance(title, bytes) else str(title)
-        name = re.sub(r' +', ' ', title.replace("_", " ").strip())
+        # bidi marks (LRM/RLM) are not whitespace: strip them together with the
+        # surrounding whitespace, otherwise "\u200e foo" keeps its leading blank and
+        # "\u200eTemplate:foo" is not recognised as a namespaced title
+        name = _edge_junk_rex.sub('', title.replace("_", " "))
+        name = re.sub(r' +', ' ', name)
         if name.startswith(":"):
             name = name[1:].strip()
             defaultns = 0
